@@ -23,10 +23,10 @@ ListOK(e) ==
        /\ fw = Ls[q] /\ bw = Reverse(Ls[q])
        /\ \A x \in Elems(fw) \cup {h} : pv[nx[x]] = x /\ nx[pv[x]] = x
   \* the traversal macros (upper / lower case spelling, removal-safe variant) visit exactly the abstract sequence:
-  \* mac = per head <<NEXT, PREV, next, prev, SAFE_NEXT, SAFE_PREV>>
-  /\ \A q \in {1, 2} : LET o == (q - 1) * 6 IN
-       /\ e.mac[o + 1] = Ls[q] /\ e.mac[o + 3] = Ls[q] /\ e.mac[o + 5] = Ls[q]
-       /\ e.mac[o + 2] = Reverse(Ls[q]) /\ e.mac[o + 4] = Reverse(Ls[q]) /\ e.mac[o + 6] = Reverse(Ls[q])
+  \* mac = per head <<NEXT, PREV, next, prev, SAFE_NEXT, SAFE_PREV, safe_next, safe_prev>>
+  /\ \A q \in {1, 2} : LET o == (q - 1) * 8 IN
+       /\ e.mac[o + 1] = Ls[q] /\ e.mac[o + 3] = Ls[q] /\ e.mac[o + 5] = Ls[q] /\ e.mac[o + 7] = Ls[q]
+       /\ e.mac[o + 2] = Reverse(Ls[q]) /\ e.mac[o + 4] = Reverse(Ls[q]) /\ e.mac[o + 6] = Reverse(Ls[q]) /\ e.mac[o + 8] = Reverse(Ls[q])
 
 RECURSIVE Chain(_, _, _)
 Chain(f, c, fuel) == IF c = 0 \/ fuel = 0 THEN <<>> ELSE <<c>> \o Chain(f, f[c], fuel - 1)
@@ -37,7 +37,7 @@ SlistOK(e) ==
        LET s == Chain(nx, nx[K + q], M + 1) IN
        /\ s = Ls[q]
        /\ e.post.tail[q] = (IF Len(s) = 0 THEN K + q ELSE s[Len(s)])     \* the tail designates the last node
-       /\ LET o == (q - 1) * 3 IN e.mac[o + 1] = Ls[q] /\ e.mac[o + 2] = Ls[q] /\ e.mac[o + 3] = Ls[q]     \* traversal macros
+       /\ LET o == (q - 1) * 4 IN e.mac[o + 1] = Ls[q] /\ e.mac[o + 2] = Ls[q] /\ e.mac[o + 3] = Ls[q] /\ e.mac[o + 4] = Ls[q]     \* traversal macros
 
 Accept(e) == IF "tail" \in DOMAIN e.post THEN SlistOK(e) ELSE ListOK(e)
 
